@@ -2,7 +2,7 @@
    Field tags (-100-i) are interleaved so that a disagreement can be located. *)
 From stdpp Require Import gmap.
 From Coq Require Import ZArith List.
-From V Require Import Base.Codec Base.Res Base.ResCodec C16.SatModel C16.Laws.
+From V Require Import Base.Codec Base.Res Base.ResCodec C16.SatModel C16.Laws C16.DraModel C16.QuantModel C16.DraLaws.
 Import ListNotations.
 Open Scope Z_scope.
 
@@ -64,6 +64,18 @@ Definition entry (sel : Z) (toks : list Z) : list Z :=
          | None => bad_input end
   | 4 => match run_dec (dPair dZ dZ) toks with
          | Some (x, _) => [float_of_quantity (quantity_of_float x)] | None => bad_input end
+  (* JobInfo.GetMinDRAResources on a real JobInfo: nil flag, then class -> (count, capacities) *)
+  | 5 => match run_dec dJob toks with
+         | Some j => eOpt eDmap (get_min_dra j) | None => bad_input end
+  (* DRAResource.Add / Sub *)
+  | 6 => match run_dec (dPair dDres (dOpt dDres)) toks with
+         | Some (d, o) => tag 1 ++ eDres (dra_add d o) ++ tag 2 ++ eDres (dra_sub d o) | None => bad_input end
+  (* api.NewResource on a ResourceList (name -> milli-value): the Resource and MaxTaskNum *)
+  | 7 => match run_dec dRlist toks with
+         | Some rl => let '(r, mt) := new_resource rl in tag 1 ++ eRes r ++ tag 2 ++ [mt] | None => bad_input end
+  (* util.ConvertRes2ResList on a Resource (unit grid) *)
+  | 8 => match run_dec dRes toks with
+         | Some r => eRlist (convert r) | None => bad_input end
   | 10 => match run_dec (let* e := dZ in let* r := dRes in let* rr := dRes in let* q := dRes in ret (e, r, rr, q)) toks with
           | Some (e, r, rr, q) => res_all e r rr q
           | None => bad_input end
@@ -84,6 +96,20 @@ Definition entry (sel : Z) (toks : list Z) : list Z :=
            | Some (l, g) => eBool (law_dra l g) | None => bad_input end
   | 104 => match run_dec (dPair dZ dZ) toks with
            | Some (x, g) => eBool (bool_decide (g = x)) | None => bad_input end
+  | 105 => match run_dec (dPair dJob (dOpt dDmap)) toks with
+           | Some (j, g) => eBool (law_min_dra j g) | None => bad_input end
+  | 106 => match run_dec (let* j := dJob in let* j' := dJob in let* g := dOpt dDmap in let* g' := dOpt dDmap in
+                          ret (j, j', g, g')) toks with
+           | Some (j, j', g, g') => eBool (law_dra_mono j j' g g') | None => bad_input end
+  | 107 => match run_dec (let* d := dDres in let* o := dOpt dDres in let* ga := dDres in let* gs := dDres in
+                          ret (d, o, ga, gs)) toks with
+           | Some (d, o, ga, gs) => eBool (law_dra_ops d o ga gs) | None => bad_input end
+  | 120 => match run_dec (let* r := dRes in let* rl := dRlist in let* r' := dRes in let* mt := dZ in
+                          ret (r, rl, r', mt)) toks with
+           | Some (r, rl, r', mt) => eBool (law_rt_res r rl r' mt) | None => bad_input end
+  | 121 => match run_dec (let* rl := dRlist in let* r := dRes in let* mt := dZ in let* rl' := dRlist in
+                          ret (rl, r, mt, rl')) toks with
+           | Some (rl, r, mt, rl') => eBool (law_rt_list rl r mt rl') | None => bad_input end
   | 110 => match run_dec (let* r := dRes in let* x := dRes in let* ra := dRes in let* rs := dRes in
                           let* rb := dRes in ret (r, x, ra, rs, rb)) toks with
            | Some (r, x, ra, rs, rb) => eBool (law_group r x ra rs rb) | None => bad_input end
